@@ -294,3 +294,5 @@ func genGrammar() {
 	b.WriteString("].\n")
 	writeIfChanged("GenGrammar.v", b.String())
 }
+
+func init() { generators = append(generators, genGrammar) }
